@@ -555,6 +555,16 @@ class Interp:
             return self.binop(st, fr, rv["op"], a, b)
         if k == "unop":
             a = self.eval_operand(st, fr, rv["a"])
+            if rv["op"] == "PtrMetadata" and a[0] == "ref" and rv["a"]["k"] in ("copy", "move"):
+                aty = fr.crate.types[self.place_ty(fr, rv["a"]["place"])]
+                inner = fr.crate.types[aty["inner"]] if aty["k"] in ("ref", "rawptr") else None
+                if inner is not None and inner["k"] == "slice":
+                    esz = self.sizeof(fr.crate, inner["inner"])
+                    ln = self.tlen(st, a[1])
+                    q = ln.div_sym(esz)
+                    if q is None:
+                        raise Undecided("slice length %r not a multiple of %r" % (ln, esz))
+                    return vsize(q)
             return self.unop(st, fr, rv["op"], a)
         if k == "discriminant":
             v = self.eval_place(st, fr, rv["place"])
@@ -616,7 +626,7 @@ class Interp:
                         return v
                     if not v[1][3]:
                         return vint(T.iconst(w, v[1][2]))
-                    raise Undecided("int width cast u%d -> u%d" % (v[1][1], w))
+                    return vint(T.ifn(w, "cast_u%d_to_u%d" % (v[1][1], w), v[1]))
             if v[0] == "symdisc":
                 return v
         raise Undecided("cast %s to %s" % (ck, t["s"]))
@@ -671,7 +681,13 @@ class Interp:
                 if eq:
                     return vbool(op == "Eq")
                 return ("bool", ("opaque", "int-" + op, T.ishow(x), T.ishow(y)))
+            if op in ("BitXor", "BitAnd", "BitOr", "Shl", "Shr", "Mul", "Div", "Rem", "ShlUnchecked", "ShrUnchecked", "MulUnchecked"):
+                if op in ("BitXor", "BitAnd", "BitOr", "Mul", "MulUnchecked") and T.akey(y) < T.akey(x):
+                    x, y = y, x
+                return vint(T.ifn(w, op, x, y))
             raise Undecided("int binop %s" % op)
+        if a[0] == "int" and b[0] in ("int", "size") and op in ("Shl", "Shr", "ShlUnchecked", "ShrUnchecked"):
+            return vint(T.ifn(a[1][1], op, a[1], b[1]))
         if a[0] == "bytes" and b[0] == "bytes" and op == "BitXor":
             return vbytes(T.bxor(a[1], b[1], st.F))
         if a[0] == "bool" and b[0] == "bool":
